@@ -81,6 +81,31 @@ func L2Describe(r *evid.Run) {
 		"rescan treats as 'no match'), so the oracle's absent-filter excuse is never granted in L2; such a rescan ends with an error, which is counted")
 }
 
+// L2Run is the parent side of the L2 part: it describes the part, runs the
+// tier's scenarios (one child process each, 16-wide) and folds their results
+// and a few written-out scenarios into r. The caller calls r.Finish.
+func L2Run(r *evid.Run) {
+	L2Describe(r)
+	n := r.Pick(L2QuickScenarios, L2ThoroughScenarios)
+	var mu sync.Mutex
+	var samples []any
+	exits := map[string]int{}
+	l2.RunScenariosCB(r, n, L2ChildTimeout, L2Scenario, func(res *l2.Result) {
+		mu.Lock()
+		defer mu.Unlock()
+		if res.Sample != nil && len(samples) < 4 {
+			samples = append(samples, res.Sample)
+		}
+		if i := strings.LastIndex(res.Fingerprint, "|exit="); i >= 0 {
+			exits[res.Fingerprint[i+6:]]++
+		}
+	})
+	mu.Lock()
+	defer mu.Unlock()
+	r.Set("l2_samples", samples)
+	r.Set("l2_rescan_state_at_end_of_script", exits)
+}
+
 // ---------------------------------------------------------------------------
 // Plan.
 
@@ -135,7 +160,9 @@ type l2Plan struct {
 	script  []string
 }
 
-func (pl *l2Plan) say(format string, a ...any) { pl.script = append(pl.script, fmt.Sprintf(format, a...)) }
+func (pl *l2Plan) say(format string, a ...any) {
+	pl.script = append(pl.script, fmt.Sprintf(format, a...))
+}
 
 func (pl *l2Plan) grow(n int, adopt bool) l2Op {
 	nodes := pl.w.G.Extend(pl.tip, n, chaingen.PaceNormal)
@@ -426,7 +453,7 @@ func (pl *l2Plan) planCatchup(behind int) {
 
 func (pl *l2Plan) planRetry(behind int) {
 	rng := pl.rng
-	pl.DropPeers = []string{"all", "all", "one"}[rng.Intn(3)]
+	pl.DropPeers = []string{"all", "all", "all", "one"}[rng.Intn(4)]
 	if pl.Peers == 1 {
 		pl.DropPeers = "all"
 	}
@@ -445,6 +472,9 @@ func (pl *l2Plan) planRetry(behind int) {
 		victim := pl.tip.Ancestor(f.Height + 1) // first new block
 		times := 1 + rng.Intn(2)                // 2 with every peer dropping: the filter query fails -> retry queue
 		kind := []string{"cfilter", "cfilter", "block"}[rng.Intn(3)]
+		if kind == "block" && !pl.fetched(victim) {
+			kind = "cfilter" // the rescan would never ask for this block
+		}
 		ops := []l2Op{pl.drop(kind, victim, times), change}
 		// While the block waits: more chain changes.
 		switch rng.Intn(3) {
@@ -459,6 +489,22 @@ func (pl *l2Plan) planRetry(behind int) {
 			pl.step(0, false, pl.update(pl.randUpdateKind(), true, "settled"), pl.settle())
 		}
 	}
+}
+
+// fetched reports whether the block has a transaction that is relevant under
+// the initially watched items (then the rescan certainly downloads it).
+func (pl *l2Plan) fetched(n *chaingen.Node) bool {
+	w0 := &watch{addrs: map[string]int{}, ops: map[wire.OutPoint]int{}, scripts: map[string]int{}}
+	for _, k := range pl.p.InitKeys {
+		w0.addrs[string(pl.p.script(k))] = 0
+	}
+	for _, u := range pl.p.InitInputs {
+		w0.ops[u.Op] = 0
+	}
+	for _, sc := range pl.p.InitScripts {
+		w0.scripts[string(sc)] = 0
+	}
+	return len(relevant(n, w0)) > 0
 }
 
 func (pl *l2Plan) planUpdate(behind int) {
@@ -564,12 +610,27 @@ func (d *l2Dropper) mutate(p *netsim.Peer, req wire.Message, honest []wire.Messa
 // ---------------------------------------------------------------------------
 // Execution.
 
+// l2Parker holds the park points of the script. Points with a callback count
+// are armed before the rescan starts (a catch-up of a few dozen blocks takes a
+// few milliseconds); the connected callback that reaches a point either parks
+// there until the driver releases it (hold) or just tells the driver (soft).
 type l2Parker struct {
 	mu      sync.Mutex
-	armed   bool
-	at      int
-	parked  chan int
+	points  []l2Point
+	fired   chan l2Fire // buffered: one entry per point
 	release chan struct{}
+}
+
+type l2Point struct {
+	step int
+	at   int
+	hold bool
+}
+
+type l2Fire struct {
+	step int
+	n    int
+	hold bool
 }
 
 type l2Run struct {
@@ -844,33 +905,74 @@ func (x *l2Run) handlers() rpcclient.NotificationHandlers {
 func (x *l2Run) maybePark() {
 	pk := x.pk
 	n := x.lg.connCount()
-	pk.mu.Lock()
-	if !pk.armed || n < pk.at {
+	for {
+		pk.mu.Lock()
+		if len(pk.points) == 0 || n < pk.points[0].at {
+			pk.mu.Unlock()
+			return
+		}
+		pt := pk.points[0]
+		pk.points = pk.points[1:]
 		pk.mu.Unlock()
-		return
-	}
-	pk.armed = false
-	pk.mu.Unlock()
-	pk.parked <- n
-	select {
-	case <-pk.release:
-	case <-time.After(40 * time.Second):
+		pk.fired <- l2Fire{pt.step, n, pt.hold}
+		if pt.hold {
+			select {
+			case <-pk.release:
+			case <-time.After(40 * time.Second):
+			}
+		}
 	}
 }
 
-func (x *l2Run) arm(at int) {
+// arm appends a park point (points are armed in script order).
+func (x *l2Run) arm(step, at int, hold bool) {
 	x.pk.mu.Lock()
-	x.pk.armed, x.pk.at = true, at
+	x.pk.points = append(x.pk.points, l2Point{step, at, hold})
 	x.pk.mu.Unlock()
 }
 
-// disarm returns true if the park had not fired.
-func (x *l2Run) disarm() bool {
+// disarm removes the point of a step; it returns true if it had not fired.
+func (x *l2Run) disarm(step int) bool {
 	x.pk.mu.Lock()
 	defer x.pk.mu.Unlock()
-	was := x.pk.armed
-	x.pk.armed = false
-	return was
+	for i, pt := range x.pk.points {
+		if pt.step == step {
+			x.pk.points = append(x.pk.points[:i:i], x.pk.points[i+1:]...)
+			return true
+		}
+	}
+	return false
+}
+
+// awaitFire waits for the point of the step to fire. Points fire in script
+// order; a point of an earlier step that nobody waited for is discarded.
+func (x *l2Run) awaitFire(step int, d time.Duration) (l2Fire, bool) {
+	deadline := time.After(d)
+	quiet := time.Now()
+	last := x.lg.length()
+	for {
+		select {
+		case f := <-x.pk.fired:
+			if f.step == step {
+				return f, true
+			}
+			if f.hold { // cannot happen: a held point is always awaited
+				x.pk.release <- struct{}{}
+			}
+		case <-deadline:
+			return l2Fire{}, false
+		case <-time.After(10 * time.Millisecond):
+			if x.exited() {
+				return l2Fire{}, false
+			}
+			// The rescan has gone quiet without reaching the point.
+			if n := x.lg.length(); n != last {
+				last, quiet = n, time.Now()
+			} else if time.Since(quiet) > 3*time.Second {
+				return l2Fire{}, false
+			}
+		}
+	}
 }
 
 func (x *l2Run) exited() bool {
@@ -878,52 +980,36 @@ func (x *l2Run) exited() bool {
 	return ex
 }
 
-// waitConn waits (pacing) until at least n connected callbacks were observed
-// or the rescan terminated.
-func (x *l2Run) waitConn(n int, d time.Duration) bool {
-	return x.lg.waitFor(d, func() bool { return x.lg.exited || x.lg.nConn >= n })
-}
-
-func (x *l2Run) runStep(s *l2Step) {
-	if s.Park {
-		x.arm(s.AtConn)
-		if s.Provoke != nil {
-			x.setTip(s.Provoke, false)
-		}
-		parked := false
-		deadline := time.After(20 * time.Second)
-	wait:
-		for {
-			select {
-			case n := <-x.pk.parked:
-				parked = true
-				x.tracef("parked inside connected callback #%d%s", n, x.where())
-				break wait
-			case <-deadline:
-				break wait
-			case <-time.After(10 * time.Millisecond):
-				if x.exited() {
-					break wait
-				}
+func (x *l2Run) runStep(i int, s *l2Step) {
+	switch {
+	case s.Park || s.AtConn > 0:
+		if s.AtConn == 0 {
+			// A rescan that follows notifications: park in its next
+			// connected callback, provoked by a fresh block.
+			x.arm(i, 0, true)
+			if s.Provoke != nil {
+				x.setTip(s.Provoke, false)
 			}
 		}
-		if !parked && !x.disarm() {
+		f, ok := x.awaitFire(i, 25*time.Second)
+		if !ok && !x.disarm(i) {
 			// Fired while we were giving up: take it.
 			select {
-			case n := <-x.pk.parked:
-				parked = true
-				x.tracef("parked inside connected callback #%d (late)%s", n, x.where())
+			case f = <-x.pk.fired:
+				ok = f.step == i
 			case <-time.After(time.Second):
 			}
 		}
-		if !parked {
-			x.tracef("park point not reached%s", x.where())
-		} else {
+		switch {
+		case !ok:
+			x.tracef("script point of step %d not reached%s", i, x.where())
+		case f.hold:
 			x.parks++
 			x.isParked = true
+			x.tracef("parked inside connected callback #%d%s", f.n, x.where())
+		default:
+			x.tracef("connected callback #%d passed%s", f.n, x.where())
 		}
-	} else if s.AtConn > 0 {
-		x.waitConn(s.AtConn, 30*time.Second)
 	}
 	for _, o := range s.Ops {
 		x.runOp(o)
@@ -1125,7 +1211,7 @@ func L2Scenario(seed int64, k int, res *l2.Result) {
 	res.Name = fmt.Sprintf("c09-l2-%d", k)
 	x := &l2Run{pl: pl, w: w, lg: newLog(), res: res, honest: pl.trunk[len(pl.trunk)-1],
 		drops: &l2Dropper{cf: map[chainhash.Hash]int{}, blk: map[chainhash.Hash]int{}, dropped: map[string]int{}},
-		pk:    &l2Parker{parked: make(chan int, 1), release: make(chan struct{})},
+		pk:    &l2Parker{fired: make(chan l2Fire, len(pl.steps)+4), release: make(chan struct{})},
 		quit:  make(chan struct{}), updCh: make(chan *UpdSpec, 64),
 		forkRel: "none", depthB: "0", relCount: map[string]int{}, updKinds: map[string]bool{}}
 	x.lg.curHash, x.lg.curHeight, x.lg.haveCur = pl.start.Hash, pl.start.Height, true
@@ -1227,6 +1313,14 @@ func L2Scenario(seed int64, k int, res *l2.Result) {
 		x.runOp(steps[0].Ops[0])
 		steps = steps[1:]
 	}
+	// Script points given as callback counts are armed before the rescan
+	// starts.
+	base := len(pl.steps) - len(steps)
+	for i, s := range steps {
+		if s.AtConn > 0 {
+			x.arm(base+i, s.AtConn, s.Park)
+		}
+	}
 	errc := x.rs.Start()
 	go func() {
 		err := <-errc
@@ -1241,8 +1335,8 @@ func L2Scenario(seed int64, k int, res *l2.Result) {
 		close(x.updCh)
 		return
 	}
-	for _, s := range steps {
-		x.runStep(s)
+	for i, s := range steps {
+		x.runStep(base+i, s)
 	}
 
 	// Ending.
